@@ -68,3 +68,22 @@ func (x *c20SX) variadicArg(t types.Type, args []c20V) c20V {
 	}
 	return c20V{k: c20kAgg, typ: t, vs: append([]c20V(nil), args...)}
 }
+
+// toIface converts a value stored into a place of type t: a nil POINTER to one of the package's error types put into
+// an interface (returned as error, assigned to an error variable) is a non-nil interface value holding a nil pointer.
+func (x *c20SX) toIface(v c20V, t types.Type) c20V {
+	if v.k != c20kNil || v.typ == nil || t == nil {
+		return v
+	}
+	if _, isIface := t.Underlying().(*types.Interface); !isIface {
+		return v
+	}
+	pt, ok := v.typ.(*types.Pointer)
+	if !ok {
+		return v
+	}
+	if name := x.pkgErrType(v.typ); name != "" {
+		return c20V{k: c20kErr, tag: name, typ: pt.Elem(), b: true, name: "typed nil pointer", fields: map[string]c20V{}}
+	}
+	return c20Unknown("a typed nil pointer %s converted to an interface", v.typ)
+}
